@@ -13,7 +13,7 @@ if TYPE_CHECKING:
 
 PHC_REGEX = re.compile(
     r"\$(?P<id>[a-z0-9-]{1,32})"
-    r"(\$v=(?P<version>[0-9]+))?"
+    r"(\$v=(?P<version>[0-9]{1,10}))?"
     r"\$(?P<params>[a-z0-9-]{1,32}=[a-zA-Z0-9/+.-]+(,([a-z0-9-]{1,32}=[a-zA-Z0-9/+.-]+))*)"
     r"\$(?P<salt>[a-zA-Z0-9/+.-]{11,64})"
     r"\$(?P<hash>[a-zA-Z0-9/+.-]{16,86})"
@@ -94,6 +94,13 @@ def _choose_definition(
     return None
 
 
+def _convert_param(type_: type, value: str):
+    # int() on its own also accepts a sign, which the parameter alphabet allows
+    if type_ is int and not (value.isascii() and value.isdigit()):
+        raise ValueError(f"not a decimal number: {value!r}")
+    return type_(value)
+
+
 def inspect_phc(
     hash: str,
     definition: Sequence[type[TPHC]] | type[TPHC],
@@ -125,7 +132,7 @@ def inspect_phc(
     definition_info = _parse_phc_def(chosen_definition)
     try:
         parsed_params = {
-            name: param.type(params[param.param.name])
+            name: _convert_param(param.type, params[param.param.name])
             for name, param in definition_info.parameters.items()
         }
     except (KeyError, ValueError):
